@@ -297,20 +297,37 @@ fn emit(out: &mut Out, text: &str, costs_in: Option<Vec<u8>>, rng: &mut Rng, kin
     // YaccFirsts::new / YaccFollows::new (driver line `Mf`; a difference there breaks the tie)
     out.imp(id, "If", &format!("eps {} first {} follow {}", bits(&eps), bits(&first), bits(&follow)));
     // has_path, the two cost vectors and the minimal sentences again, for the comparison with the Lean
-    // MODELS of has_path / rule_min_costs / rule_max_costs / min_sentence (driver line `Mc`)
+    // MODELS of has_path / rule_min_costs / rule_max_costs / min_sentence / min_sentences (driver line `Mc`)
     let sent_txt = |s: &String| match s.as_str() {
         "H" | "P" | "U" => s.clone(),
         x => format!("[{}]", x.split(' ').skip(1).collect::<Vec<_>>().join(",")),
+    };
+    // … and what `min_sentences` returned, in the order of the returned vector (the first 40 sentences and
+    // the capped count, as recorded by the child), for the comparison with the Lean MODEL of min_sentences
+    let sents_txt = |s: &String| match s.as_str() {
+        "H" | "P" | "U" => s.clone(),
+        x => {
+            let v: Vec<&str> = x.split(' ').collect();
+            let mut o = format!("{}:", v[0]);
+            let mut i = 1;
+            while i < v.len() {
+                let n: usize = v[i].parse().unwrap_or(0);
+                o.push_str(&format!("[{}]", v[i + 1..(i + 1 + n).min(v.len())].join(",")));
+                i += 1 + n;
+            }
+            o
+        }
     };
     out.imp(
         id,
         "Ic",
         &format!(
-            "path {} mincost {} maxcost {} minsent {}",
+            "path {} mincost {} maxcost {} minsent {} minsents {}",
             bits(&path),
             mincost.join(" "),
             maxcost.join(" "),
-            minsent.iter().map(sent_txt).collect::<Vec<_>>().join(" ")
+            minsent.iter().map(sent_txt).collect::<Vec<_>>().join(" "),
+            minsents.iter().map(sents_txt).collect::<Vec<_>>().join(" ")
         ),
     );
     if hfail.is_none() && g.firsts().firsts(g.start_rule_idx()).len() != nt {
@@ -357,6 +374,18 @@ fn extras() -> Vec<(String, Vec<u8>)> {
         // rule_min_costs: every minimal cost fits a u16 (S 50000, A 50000, B 40000) but the dearer
         // production `B B` of S is summed too (finding C17-mincost-overflow-dearer-production)
         (format!("%start S\n%%\nS: A | B B | S;\nA: {};\nB: {};", toks(250), toks(200)), vec![200; 4]),
+        // min_sentences: three odometer columns of different bases, a nullable column, a token column, two
+        // cheapest productions (the second one empty on one side), 72 > 40 minimal sentences for S (the
+        // recorded prefix is compared, in order, with the Lean model of the odometer)
+        (
+            "%start S\n%%\nS: X N Y 'e' Z | Y 'e' X N Z;\nN: ;\nX: 'a' | 'b' | 'c';\nY: 'a' | 'b' | 'c' | 'd';\nZ: 'a' | 'b' | 'e';".to_string(),
+            vec![1; 8],
+        ),
+        // … and with costs that leave one cheapest production per rule but several cheapest sentences
+        (
+            "%start S\n%%\nS: X N Y | Y X 'e';\nN: ;\nX: 'a' | 'b' 'c' | 'c';\nY: 'a' | 'b' | 'c' 'c' | 'd';".to_string(),
+            vec![2, 3, 1, 2, 9, 1],
+        ),
     ]
 }
 
